@@ -1,20 +1,609 @@
-fn main() {
-    use rules::fixture::*;
-    use rules::*;
-    let mut rt = Rt::new(2, 2);
-    let p0 = Program::new(vec![Step::SetNodeAtt { n: 1, v: 2 }]);
-    let p1 = Program::new(vec![Step::UpsertNode { n: 3, ty: 1 }, Step::UpsertEdge { e: 1, from: 1, to: 3, ty: 0 }]);
-    println!("{:?}", rt.runtime.ingest(intent_default(wl(1), &p0)));
-    println!("{:?}", rt.runtime.ingest(intent_default(wl(2), &p1)));
-    println!("{:?}", rt.runtime.ingest(intent_exact(rt.heads[1], prog_kind(), &p1)));
-    let recs = rt.super_tick(warp_core::SchedulerKind::Radix);
-    println!("{recs:?}");
-    for w in [1u8, 2] {
-        let f = rt.runtime.worldlines().get(&wl(w)).unwrap();
-        println!("wl{w} tick={:?} root={}", f.frontier_tick(), mc::hex(&f.state().state_root()));
-        let st = f.state().warp_state().store(&universe().warp(0)).unwrap();
-        println!("  n1 att={:?} n3={:?} e1={}", st.node_attachment(&universe().node(1)).is_some(), st.node(&universe().node(3)).is_some(), st.has_edge(&universe().edge(1)));
+//! C01 — a tick's outcome depends on the candidate set, never on arrival order.
+//!
+//! Exhaustive over: scenarios (pre-state + matching candidate pool) × scheduler kind ×
+//! every candidate set of size ≤ k × every enqueue sequence of length ≤ |set|+extra that covers
+//! the set (all permutations and all duplication patterns).  Every sequence is committed on a
+//! fresh real `Engine`.
+//!
+//! Oracles: (1) metamorphic — all sequences of one set give a byte-identical outcome fingerprint
+//! (commit id, state root, patch digest + ops + slots, plan/decision/rewrites digests, receipt
+//! entries with dispositions and blockers, post-state); (2) reference — `ref_tick` orders the set
+//! by scope-hash bytes, admits greedily with the independent conflict predicate over honest
+//! footprint items, interprets every accepted program against the *pre*-state and unions the
+//! effects; receipt order, dispositions, `blocked_by` and the post-state must agree.
+//! (3) large batches: the same cores embedded in 1023/1024/1025/1100 independent fillers,
+//! enqueued in a declared finite family of orders, cross the scheduler's small-batch threshold.
+
+use std::collections::{BTreeMap, BTreeSet};
+
+use mc::{json, Level, Report};
+use rayon::prelude::*;
+use rules::pool::{scenarios, Scenario};
+use rules::tick::{outcome_fingerprint, run_tick, Cand, TickOutcome};
+use rules::{ref_apply, ref_conflict, ref_effects, rule_id, universe, Program, Scope};
+use warp_core::{scope_hash, SchedulerKind, TickReceiptDisposition};
+use world::RefState;
+
+struct RefTick {
+    /// candidate indices (into the set) in canonical order
+    order: Vec<usize>,
+    accepted: Vec<bool>,
+    blocked_by: Vec<Vec<u32>>,
+    post: Result<RefState, String>,
+}
+
+fn cand_key(c: &Cand) -> [u8; 32] {
+    let u = universe();
+    scope_hash(&rule_id(c.0), &u.node_key(c.1, c.2))
+}
+
+fn ref_tick(pre: &RefState, set: &[(Cand, Program)]) -> RefTick {
+    let mut order: Vec<usize> = (0..set.len()).collect();
+    order.sort_by_key(|i| cand_key(&set[*i].0));
+    let mut accepted = Vec::new();
+    let mut blocked_by: Vec<Vec<u32>> = Vec::new();
+    let mut acc_items: Vec<(usize, Vec<rules::FpItem>, u8)> = Vec::new(); // (entry idx, items, scope)
+    let mut ops = Vec::new();
+    for (entry, &i) in order.iter().enumerate() {
+        let (c, p) = &set[i];
+        let items = p.honest_items(Scope { w: c.1 });
+        let blockers: Vec<u32> = acc_items
+            .iter()
+            .filter(|(_, it, sc)| ref_conflict(&items, c.2, it, *sc))
+            .map(|(e, _, _)| *e as u32)
+            .collect();
+        if blockers.is_empty() {
+            accepted.push(true);
+            if let Some(e) = ref_effects(p, pre, c.1) {
+                ops.extend(e);
+            }
+            acc_items.push((entry, items, c.2));
+        } else {
+            accepted.push(false);
+        }
+        blocked_by.push(blockers);
     }
-    let recs = rt.super_tick(warp_core::SchedulerKind::Radix);
-    println!("second pass {recs:?}");
+    RefTick {
+        order,
+        accepted,
+        blocked_by,
+        post: ref_apply(pre, &ops),
+    }
+}
+
+fn kind_name(k: SchedulerKind) -> &'static str {
+    match k {
+        SchedulerKind::Radix => "radix",
+        SchedulerKind::Legacy => "legacy",
+    }
+}
+
+fn seq_json(seq: &[Cand]) -> serde_json::Value {
+    json!(seq
+        .iter()
+        .map(|c| format!("{}@W{}.n{}", c.0, c.1, c.2))
+        .collect::<Vec<_>>())
+}
+
+fn check_against_reference(
+    r: &Report,
+    scen: &Scenario,
+    kind: SchedulerKind,
+    set: &[(Cand, Program)],
+    rt: &RefTick,
+    o: &TickOutcome,
+    seq: &[Cand],
+) {
+    let u = universe();
+    let sig_base = format!("{}:{}", scen.name, kind_name(kind));
+    let entries = o.receipt.entries();
+    let detail = || {
+        json!({"scenario": scen.name, "kind": kind_name(kind), "sequence": seq_json(seq),
+            "set": set.iter().map(|(c,p)| json!({"cand": format!("{}@W{}.n{}", c.0,c.1,c.2), "program": format!("{:?}", p.steps)})).collect::<Vec<_>>()})
+    };
+    if entries.len() != set.len() {
+        r.violation(
+            &format!("receipt-entry-count:{sig_base}"),
+            json!({"case": detail(), "entries": entries.len(), "set": set.len()}),
+        );
+        return;
+    }
+    for (e, &i) in rt.order.iter().enumerate() {
+        let c = &set[i].0;
+        let want_scope = u.node_key(c.1, c.2);
+        if entries[e].scope != want_scope || entries[e].rule_id != rule_id(c.0) {
+            r.violation(
+                &format!("receipt-order-not-ascending-scope-hash:{sig_base}"),
+                json!({"case": detail(), "entry": e}),
+            );
+            return;
+        }
+        let acc = matches!(entries[e].disposition, TickReceiptDisposition::Applied);
+        if acc != rt.accepted[e] {
+            r.violation(
+                &format!(
+                    "admission-differs-from-greedy-reference:{sig_base}:{}",
+                    if acc { "accepted-conflicting" } else { "rejected-independent" }
+                ),
+                json!({"case": detail(), "entry": e, "real_accepted": acc}),
+            );
+            return;
+        }
+        if o.receipt.blocked_by(e) != rt.blocked_by[e].as_slice() {
+            r.violation(
+                &format!("blocked-by-differs-from-reference:{sig_base}"),
+                json!({"case": detail(), "entry": e, "real": o.receipt.blocked_by(e), "ref": rt.blocked_by[e]}),
+            );
+            return;
+        }
+    }
+    match (&rt.post, u.coherent(&o.post)) {
+        (Ok(want), Ok(got)) => {
+            if *want != got {
+                r.violation(
+                    &format!("post-state-differs-from-reference:{sig_base}"),
+                    json!({"case": detail(), "want": want.to_json(), "got": got.to_json()}),
+                );
+            } else {
+                // state root must be the root of the post state
+                let root = u.state_root(&o.post, want);
+                if root != o.snapshot.state_root {
+                    r.violation(
+                        &format!("snapshot-state-root-is-not-root-of-post-state:{sig_base}"),
+                        json!({"case": detail()}),
+                    );
+                }
+            }
+        }
+        (Err(e), _) => {
+            r.counter("sets_outside_reference_domain", 1);
+            let _ = e;
+        }
+        (_, Err(e)) => r.violation(
+            &format!("post-state-incoherent:{sig_base}"),
+            json!({"case": detail(), "error": e}),
+        ),
+    }
+}
+
+fn explore_scenario(r: &Report, scen: &Scenario, kind: SchedulerKind, max_set: usize, extra: usize, workers: usize) {
+    let sets = mc::enumerate::subsets_range(scen.pool.len(), 1, max_set);
+    sets.par_iter().for_each(|ixs| {
+        if r.over_budget_frac(0.8) {
+            r.cap_hit("candidate-set enumeration stopped by wall cap");
+            return;
+        }
+        let set: Vec<(Cand, Program)> = ixs.iter().map(|i| scen.pool[*i].clone()).collect();
+        let rt = ref_tick(&scen.pre, &set);
+        let n_conf = rt.accepted.iter().filter(|a| !**a).count();
+        let mut first: Option<(Vec<u8>, Vec<Cand>)> = None;
+        let mut n_seq = 0u64;
+        for len in set.len()..=set.len() + extra {
+            for s in mc::enumerate::covering_sequences(set.len(), len) {
+                let seq: Vec<Cand> = s.iter().map(|i| set[*i].0).collect();
+                n_seq += 1;
+                match run_tick(&scen.pre, &seq, kind, workers) {
+                    Ok(o) => {
+                        let fp = outcome_fingerprint(&o);
+                        match &first {
+                            None => {
+                                check_against_reference(r, scen, kind, &set, &rt, &o, &seq);
+                                first = Some((fp, seq.clone()));
+                            }
+                            Some((fp0, seq0)) => {
+                                if *fp0 != fp {
+                                    let what = first_diff_line(fp0, &fp);
+                                    r.violation(
+                                        &format!(
+                                            "outcome-depends-on-enqueue-order:{}:{}:{}",
+                                            scen.name,
+                                            kind_name(kind),
+                                            what
+                                        ),
+                                        json!({"case": {"scenario": scen.name, "kind": kind_name(kind),
+                                            "sequence_a": seq_json(seq0), "sequence_b": seq_json(&seq)},
+                                            "first_difference": what}),
+                                    );
+                                }
+                            }
+                        }
+                    }
+                    Err((f, _)) => {
+                        r.violation(
+                            &format!("honest-tick-failed:{}:{}:{:?}", scen.name, kind_name(kind), fail_class(&f)),
+                            json!({"case": {"scenario": scen.name, "kind": kind_name(kind), "sequence": seq_json(&seq)}, "failure": format!("{f:?}")}),
+                        );
+                    }
+                }
+            }
+        }
+        r.eval(n_seq);
+        r.counter("candidate_sets", 1);
+        if n_conf > 0 {
+            r.counter("sets_with_conflict", 1);
+            r.nontrivial(
+                format!("{}:{}:{:?}", scen.name, kind_name(kind), ixs).as_bytes(),
+            );
+        }
+        if ixs.len() == max_set && n_conf > 0 {
+            r.sample(json!({"scenario": scen.name, "kind": kind_name(kind),
+                "set": set.iter().map(|(c,_)| format!("{}@W{}.n{}", c.0,c.1,c.2)).collect::<Vec<_>>(),
+                "canonical_order": rt.order, "accepted": rt.accepted, "blocked_by": rt.blocked_by,
+                "sequences_committed": n_seq}));
+        }
+        r.outcome_n(&format!("rejections_per_set={n_conf}"), 1);
+    });
+}
+
+fn fail_class(f: &rules::tick::TickFailure) -> String {
+    match f {
+        rules::tick::TickFailure::EngineError(e) => format!("EngineError({})", e.split('(').next().unwrap_or("")),
+        rules::tick::TickFailure::Violation { kind, .. } => format!("Violation({})", kind.split('(').next().unwrap_or("")),
+        rules::tick::TickFailure::Panic(_) => "Panic".into(),
+        rules::tick::TickFailure::Setup(_) => "Setup".into(),
+    }
+}
+
+fn first_diff_line(a: &[u8], b: &[u8]) -> String {
+    let sa = String::from_utf8_lossy(a);
+    let sb = String::from_utf8_lossy(b);
+    for (la, lb) in sa.lines().zip(sb.lines()) {
+        if la != lb {
+            return la.split(|c| c == '=' || c == ' ' || c == ':').next().unwrap_or("?").to_string();
+        }
+    }
+    "length".into()
+}
+
+// ---------------------------------------------------------------------------------------------
+// Large batches: fillers outside the universe, compared by hashes only.
+// ---------------------------------------------------------------------------------------------
+
+mod large {
+    use super::*;
+    use warp_core::{
+        make_node_id, EngineBuilder, NodeId, NodeRecord, Snapshot, TickReceipt, WarpTickPatchV1,
+    };
+
+    pub struct Out {
+        pub fp: Vec<u8>,
+        pub core_dispositions: Vec<(NodeId, bool)>,
+    }
+
+    fn filler_id(i: usize) -> NodeId {
+        make_node_id(&format!("verif/filler{i}"))
+    }
+
+    /// Commit `order` (indices: 0..core.len() = core candidates, core.len().. = fillers).
+    pub fn commit(
+        scen: &Scenario,
+        core: &[(Cand, Program)],
+        fillers: usize,
+        order: &[usize],
+        kind: SchedulerKind,
+    ) -> Result<Out, String> {
+        let u = universe();
+        let mut state = u.build(&scen.pre);
+        let w0 = u.warp(0);
+        let empty = Program::new(vec![]);
+        {
+            let store = state.store_mut(&w0).ok_or("no root store")?;
+            for i in 0..fillers {
+                store.insert_node(filler_id(i), NodeRecord { ty: u.ty(2) });
+                store.set_node_attachment(filler_id(i), Some(rules::carrier_value(&empty)));
+            }
+        }
+        let mut e = EngineBuilder::from_state(state, u.root_key(&scen.pre))
+            .scheduler(kind)
+            .workers(1)
+            .build()
+            .map_err(|e| format!("{e:?}"))?;
+        for rule in rules::all_rules() {
+            e.register_rule(rule).map_err(|e| format!("{e:?}"))?;
+        }
+        let tx = e.begin();
+        for &i in order {
+            if i < core.len() {
+                let c = core[i].0;
+                let stack = rules::tick::descent_stack(&scen.pre, c.1);
+                e.apply_in_warp(tx, u.warp(c.1), c.0, &u.node(c.2), &stack)
+                    .map_err(|e| format!("{e:?}"))?;
+            } else {
+                e.apply(tx, rules::RULE_A, &filler_id(i - core.len()))
+                    .map_err(|e| format!("{e:?}"))?;
+            }
+        }
+        let (sn, rc, pt): (Snapshot, TickReceipt, WarpTickPatchV1) =
+            mc::catch(|| e.commit_with_receipt(tx))
+                .map_err(|p| format!("panic: {p}"))?
+                .map_err(|e| format!("{e:?}"))?;
+        let mut s = format!(
+            "hash={} root={} patch={} plan={} decision={} rewrites={} entries={}\n",
+            mc::hex(&sn.hash),
+            mc::hex(&sn.state_root),
+            mc::hex(&pt.digest()),
+            mc::hex(&sn.plan_digest),
+            mc::hex(&sn.decision_digest),
+            mc::hex(&sn.rewrites_digest),
+            rc.entries().len()
+        );
+        let mut prev: Option<[u8; 32]> = None;
+        let mut ascending = true;
+        let core_nodes: BTreeSet<NodeId> = core.iter().map(|(c, _)| u.node(c.2)).collect();
+        let mut core_disp = Vec::new();
+        for en in rc.entries() {
+            if let Some(p) = prev {
+                if p >= en.scope_hash {
+                    ascending = false;
+                }
+            }
+            prev = Some(en.scope_hash);
+            if core_nodes.contains(&en.scope.local_id) {
+                core_disp.push((
+                    en.scope.local_id,
+                    matches!(en.disposition, TickReceiptDisposition::Applied),
+                ));
+            }
+        }
+        s.push_str(&format!("ascending={ascending}\n"));
+        for w in 0..3u8 {
+            if let Some(st) = e.state().store(&u.warp(w)) {
+                s.push_str(&format!("store{w}={}\n", mc::hex(&st.canonical_state_hash())));
+            }
+        }
+        if !ascending {
+            return Err("receipt entries not in strictly ascending scope-hash order".into());
+        }
+        Ok(Out {
+            fp: s.into_bytes(),
+            core_dispositions: core_disp,
+        })
+    }
+
+    /// The declared finite family of enqueue orders for `n` = core + fillers items.
+    pub fn order_family(core: usize, fillers: usize) -> Vec<(String, Vec<usize>)> {
+        let n = core + fillers;
+        let ids: Vec<usize> = (0..n).collect();
+        let mut fam: Vec<(String, Vec<usize>)> = Vec::new();
+        fam.push(("core-first".into(), ids.clone()));
+        let mut rev = ids.clone();
+        rev.reverse();
+        fam.push(("reversed".into(), rev));
+        let mut core_last: Vec<usize> = (core..n).collect();
+        core_last.extend(0..core);
+        fam.push(("core-last".into(), core_last));
+        let mut mid: Vec<usize> = (core..core + fillers / 2).collect();
+        mid.extend(0..core);
+        mid.extend(core + fillers / 2..n);
+        fam.push(("core-middle".into(), mid));
+        for k in 1..8 {
+            let rot = (n * k) / 8;
+            let mut v = ids.clone();
+            v.rotate_left(rot);
+            fam.push((format!("rot{k}/8"), v));
+        }
+        // interleaved: even positions ascending, odd descending
+        let mut il = Vec::new();
+        let (mut lo, mut hi) = (0usize, n);
+        while lo < hi {
+            il.push(lo);
+            lo += 1;
+            if lo < hi {
+                hi -= 1;
+                il.push(hi);
+            }
+        }
+        fam.push(("interleaved".into(), il));
+        // duplicates: whole batch twice (second pass reversed)
+        let mut dup = ids.clone();
+        let mut r2 = ids;
+        r2.reverse();
+        dup.extend(r2);
+        fam.push(("twice".into(), dup));
+        fam
+    }
+}
+
+fn large_batches(r: &Report) {
+    let scen = &scenarios(0)[0];
+    // cores: a conflicting pair + an independent one, and a 3-way conflict chain
+    let cores: Vec<Vec<usize>> = vec![vec![0, 1, 2], vec![0, 1, 5]];
+    let sizes: Vec<usize> = if r.quick() {
+        vec![1020, 1021, 1022, 1100]
+    } else {
+        vec![1020, 1021, 1022, 1023, 1024, 1100, 2047, 5000]
+    };
+    let kinds = [SchedulerKind::Radix, SchedulerKind::Legacy];
+    let mut jobs: Vec<(usize, usize, SchedulerKind)> = Vec::new();
+    for ci in 0..cores.len() {
+        for f in &sizes {
+            for k in kinds {
+                jobs.push((ci, *f, k));
+            }
+        }
+    }
+    jobs.par_iter().for_each(|(ci, fillers, kind)| {
+        if r.over_budget() {
+            r.cap_hit("large-batch family stopped by wall cap");
+            return;
+        }
+        let core: Vec<(Cand, Program)> = cores[*ci]
+            .iter()
+            .filter_map(|i| scen.pool.get(*i).cloned())
+            .collect();
+        let total = core.len() + fillers;
+        // the reference for the core alone
+        let rt = ref_tick(&scen.pre, &core);
+        let want: BTreeMap<[u8; 32], bool> = rt
+            .order
+            .iter()
+            .enumerate()
+            .map(|(e, i)| (universe().node(core[*i].0 .2).0, rt.accepted[e]))
+            .collect();
+        let mut first: Option<(String, Vec<u8>)> = None;
+        for (name, order) in large::order_family(core.len(), *fillers) {
+            r.eval(1);
+            match large::commit(scen, &core, *fillers, &order, *kind) {
+                Ok(o) => {
+                    // NOTE: two core candidates may share a scope node (two rules); keyed by node,
+                    // dispositions are compared as multisets per node.
+                    let mut got: BTreeMap<[u8; 32], Vec<bool>> = BTreeMap::new();
+                    for (n, a) in &o.core_dispositions {
+                        got.entry(n.0).or_default().push(*a);
+                    }
+                    for (n, a) in &want {
+                        if let Some(v) = got.get(n) {
+                            if v.len() == 1 && v[0] != *a {
+                                r.violation(
+                                    &format!("large-batch-core-admission-differs:{}:n={total}", kind_name(*kind)),
+                                    json!({"case": {"core": cores[*ci], "fillers": fillers, "order": name}}),
+                                );
+                            }
+                        }
+                    }
+                    match &first {
+                        None => first = Some((name, o.fp)),
+                        Some((n0, fp0)) => {
+                            if *fp0 != o.fp {
+                                r.violation(
+                                    &format!(
+                                        "large-batch-outcome-depends-on-order:{}:n={total}:{}",
+                                        kind_name(*kind),
+                                        first_diff_line(fp0, &o.fp)
+                                    ),
+                                    json!({"case": {"core": cores[*ci], "fillers": fillers, "order_a": n0, "order_b": name}}),
+                                );
+                            }
+                        }
+                    }
+                }
+                Err(e) => r.violation(
+                    &format!("large-batch-tick-failed:{}:n={total}", kind_name(*kind)),
+                    json!({"case": {"core": cores[*ci], "fillers": fillers, "order": name}, "error": e}),
+                ),
+            }
+        }
+        r.counter("large_batches", 1);
+        r.nontrivial(format!("large:{ci}:{fillers}:{}", kind_name(*kind)).as_bytes());
+        if total <= 1024 {
+            r.counter("large_batches_at_or_below_threshold", 1);
+        } else {
+            r.counter("large_batches_above_threshold", 1);
+        }
+    });
+    r.sample_force(json!({"large_batch_family": large::order_family(3, 5).iter().map(|(n, o)| json!({"name": n, "order_for_3_core_5_fillers": o})).collect::<Vec<_>>(),
+        "filler_counts": sizes}));
+}
+
+/// Re-run the sequences named in a replay file without the explorer and print what differs.
+fn replay(r: &Report, path: &std::path::Path) {
+    let txt = std::fs::read_to_string(path).unwrap_or_default();
+    let v: serde_json::Value = serde_json::from_str(&txt).unwrap_or_default();
+    let case = &v["detail"]["case"];
+    let scen_name = case["scenario"].as_str().unwrap_or("");
+    let kind = if case["kind"].as_str() == Some("legacy") {
+        SchedulerKind::Legacy
+    } else {
+        SchedulerKind::Radix
+    };
+    let Some(scen) = scenarios(1).into_iter().find(|s| s.name == scen_name) else {
+        r.machinery_error("replay: unknown scenario (large-batch cases are replayed by re-running the tier)");
+        return;
+    };
+    let parse = |x: &serde_json::Value| -> Vec<Cand> {
+        x.as_array()
+            .map(|a| {
+                a.iter()
+                    .filter_map(|c| {
+                        let c = c.as_str()?;
+                        scen.pool
+                            .iter()
+                            .map(|(k, _)| *k)
+                            .find(|k| format!("{}@W{}.n{}", k.0, k.1, k.2) == c)
+                    })
+                    .collect()
+            })
+            .unwrap_or_default()
+    };
+    let mut fps = Vec::new();
+    for key in ["sequence", "sequence_a", "sequence_b"] {
+        let seq = parse(&case[key]);
+        if seq.is_empty() {
+            continue;
+        }
+        r.eval(1);
+        match run_tick(&scen.pre, &seq, kind, 1) {
+            Ok(o) => {
+                let set: Vec<(Cand, Program)> = {
+                    let mut seen = BTreeSet::new();
+                    seq.iter()
+                        .filter(|c| seen.insert(**c))
+                        .filter_map(|c| scen.pool.iter().find(|(k, _)| k == c).cloned())
+                        .collect()
+                };
+                let rt = ref_tick(&scen.pre, &set);
+                check_against_reference(r, &scen, kind, &set, &rt, &o, &seq);
+                println!("replay {key}: committed; fingerprint {}", mc::hex(&mc::h(&outcome_fingerprint(&o))));
+                fps.push((key, outcome_fingerprint(&o), seq));
+            }
+            Err((f, _)) => {
+                println!("replay {key}: tick failed: {f:?}");
+                r.violation(&format!("honest-tick-failed:{}:{}:{:?}", scen.name, kind_name(kind), fail_class(&f)), json!({"case": case}));
+            }
+        }
+    }
+    if fps.len() == 2 && fps[0].1 != fps[1].1 {
+        let what = first_diff_line(&fps[0].1, &fps[1].1);
+        r.violation(
+            &format!("outcome-depends-on-enqueue-order:{}:{}:{}", scen.name, kind_name(kind), what),
+            json!({"case": case}),
+        );
+    }
+    r.nontrivial(b"replay-a");
+    r.nontrivial(b"replay-b");
+    r.sample(case.clone());
+}
+
+fn main() {
+    mc::quiet_panics();
+    let r = Report::new("C01", Level::Exploration);
+    let build = Report::build_tag();
+    r.rule("cases = (scenario, scheduler kind, candidate set, covering enqueue sequence) each committed on a fresh real Engine; \
+            distinct_nontrivial = distinct (scenario, kind, candidate set) whose reference admission rejects >=1 candidate, plus distinct large-batch configurations");
+    r.assume("rule programs have honest footprints derived from the program (rules crate); the reference interpreter and conflict predicate are written from the property statement");
+    r.assume("universe: 3 pre-states (chain, diamond, two-instance portal child), 12 micro-programs, 2 rule ids; not all graphs/programs");
+    r.note("build", json!(build));
+
+    if let Some(path) = r.replay.clone() {
+        replay(&r, &path);
+        r.finish();
+    }
+    let level = if r.quick() { 0 } else { 1 };
+    let max_set = r.pick(3, 4);
+    let extra = r.pick(1, 2);
+    let scens = scenarios(level);
+    for scen in &scens {
+        r.note(
+            &format!("pool_{}", scen.name),
+            json!(scen.pool.iter().map(|(c, p)| format!("{}@W{}.n{}: {:?}", c.0, c.1, c.2, p.steps)).collect::<Vec<_>>()),
+        );
+        for kind in [SchedulerKind::Radix, SchedulerKind::Legacy] {
+            explore_scenario(&r, scen, kind, max_set, extra, 1);
+        }
+    }
+    large_batches(&r);
+
+    r.guard("some_sets_have_conflicts", r.counter_value("sets_with_conflict") > 0);
+    r.guard("saw_sets_with_0_1_2_rejections", r.outcome_count("rejections_per_set=0") > 0
+        && r.outcome_count("rejections_per_set=1") > 0
+        && r.outcome_count("rejections_per_set=2") > 0);
+    r.guard("large_batches_both_sides_of_threshold",
+        r.counter_value("large_batches_at_or_below_threshold") > 0 && r.counter_value("large_batches_above_threshold") > 0);
+    r.guard("no_set_outside_reference_domain", r.counter_value("sets_outside_reference_domain") == 0);
+
+    if build == "main" && r.thorough() {
+        r.run_extra_build("prod", &[]);
+        r.run_extra_build("dv", &[]);
+    }
+    r.finish();
 }
